@@ -260,6 +260,10 @@ class VK:
         s._record(name, "discharged" if ok is True else ("undecided" if ok is None else "refuted"), backend, time.time(), detail)
         if ok is False and replay is not None:
             s.obl[-1]["replay"] = replay
+        elif ok is False and backend in ("ground", "exec", "exact-rational"):
+            # a closed fact about what the real code returned on the concrete data of this configuration (no quantified
+            # variable enters it): the configuration itself is the failing input; --replay regenerates the obligation
+            s.obl[-1]["replay"] = {"obligation": name, "contract": s.c.name, "cfg": s.cfg, "property": s.c.prop, "kind": "ground", "confirmed": True, "point": {"configuration": cfgkey(s.cfg) or "(single configuration)"}, "expected": "holds: " + clause[:200], "actual": "real code: " + (detail[:400] or "does not hold")}
 
     def ensures_smt(s, clause, claim, assumptions=(), timeout_ms=20000, model_vars=None):
         """validity of a z3 formula under assumptions (E2/E3 obligations)"""
